@@ -257,6 +257,22 @@ def probe_monitor(*names):
             res.property_failures.append(dict(suite=res.name, case=case, what='probe ' + t[2] + ': ' + ' '.join(impl)[:400]))
     return mon
 
+def probe_known_monitor(name, shape):
+    """an L0 probe whose failure is a recorded finding (KNOWN_FINDINGS.txt, by shape); any other
+    answer than ok / that failure is a property failure"""
+    def mon(ctx, res, fn, case, impl, model, spec):
+        if fn != 'probe' or not case.split()[2].startswith(name):
+            return
+        if impl[:1] == ['ok']:
+            return
+        m = dict(suite=res.name, case=case, impl=' '.join(impl)[:600], what='probe ' + case.split()[2] + ': ' + ' '.join(impl)[:400])
+        kid = known_match(ctx, shape) if ' '.join(impl).startswith('FAIL a version created exactly at the cutoff cannot be opened') else None
+        if kid:
+            m['finding'] = kid; res.known_hits.append(m)
+        else:
+            res.property_failures.append(m)
+    return mon
+
 def sval_second_tag(case):
     """storage-class tag of the second operand of an `order` case"""
     t = case.split()
@@ -1410,7 +1426,8 @@ def c15_monitor(ctx, res, case, impl_line, model_line, spec):
 register('C13', [l2_suite('ro', native=False, extra_monitor=c13_monitor, name='l2-ro',
                           determined='a statement on (or next to) a read-only table returns something else than the committed rows: a refused write changed what is visible'), l1_suite(['rows', 'plain'], monitor=c13_l1_monitor)],
          ['the request log of the HTTP proxy in front of gofakes3 sees every storage request'])
-register('C09', [l2_suite('vacuum', native=False, extra_monitor=c09_monitor, name='l2-vacuum'),
+register('C09', [l0_suite(['probe'], quick=20, thorough=20, monitor=probe_known_monitor('version-created-at-the-cutoff', 'version_created_at_cutoff_deleted')),
+                 l2_suite('vacuum', native=False, extra_monitor=c09_monitor, name='l2-vacuum'),
                  l1_suite(['rows', 'plain'], monitor=chain(c09_l1_monitor, determined_result_monitor('after deleting history / vacuum an operation returns something else than the retained contents'))),
                  l1_suite(['rows'], name='l1f', quick=120, monitor=c09_l1_monitor),
                  l2_suite('faults', name='l2-faults', quick=80, thorough=1500, extra_monitor=c09_monitor)],
@@ -1477,7 +1494,7 @@ register('C14', [l1_suite(['rows', 'plain', 'cb'], name='l1f', quick=250,
 def c18_monitor(ctx, res, fn, case, impl, model, spec):
     t = case.split()
     if fn == 'probe':
-        if t[2].startswith('reopening-a-quiescent') or t[2].startswith('historic-open') or t[2].startswith('tombstone-'):
+        if t[2].startswith('reopening-a-quiescent') or t[2].startswith('historic-open') or t[2].startswith('tombstone-') or t[2].startswith('version-created-at'):
             return      # (probes of C01 / C11)
         if impl[:1] != ['ok']:
             res.property_failures.append(dict(suite=res.name, case=case, impl=' '.join(impl)[:600],
